@@ -27,8 +27,10 @@ MANIFEST = dict(
           "unit agrees with its registry (so programs of any depth are covered by induction on the expression DAG; depth-2 programs "
           "are run as a sanity check). Bounded: operation list, unit shapes, payload extents <= 2; unit pairs that cancel PAIRWISE use "
           "table units (concrete scales, symbolic values); partly cancelling quotients/products (pairwise coefficient x a left-over "
-          "group of derived and base units that is a pure number only as a whole) carry the group with symbolic scales; rounding is "
-          "outside."),
+          "group of derived and base units that is a pure number only as a whole) carry the group with symbolic scales; trigonometric "
+          "functions also of angle units WITH AN OFFSET (symbolic scale of either sign and symbolic offset, lat, lon) over call forms x "
+          "operand histories; every reduction form over operand rank 1-2 x axis argument (omitted, 0, 1, -1, None, tuples, keepdims, "
+          "where=); concrete exponent arrays; rounding is outside."),
     design="DESIGN.md section 4 C04",
     technique="symbolic execution of the real Python code over z3 real terms; SMT (QF_NRA / mixed Int-Real with ToInt) obligations per path; counterexample replay")
 EXPLANATION = (
@@ -46,13 +48,29 @@ EXPLANATION = (
     "coefficient (g against kg) next to a left-over group that is dimensionless only as a whole (xv*xs/xa with xv a velocity atom, "
     "xf*xs**2/(xm*xa), mJ/(cm*N)), whose scale the clean-up block after the ufunc call folds into the data; the group's scale is a "
     "z3 term (no two of its factors cancel, so nothing symbolic is written into a sympy expression), so both bookkeeping steps are "
-    "decided together for all scales."
+    "decided together for all scales. "
+    "Trigonometric functions are uninterpreted for the solver, so 'the value is the function of the radian magnitude' is decided on the "
+    "ARGUMENT the real code hands to sin/cos/tan: it must lie within the 1e-6 band of scale*(x - offset), the oracle's radian reading "
+    "of the operand - for angle units with an offset (user-defined: scale of either sign and offset are z3 reals; lat and lon from "
+    "their definition) as for offset-free ones, for an operand created in the unit, created with a Unit object, re-expressed into "
+    "it with .to / convert_to_units from another angle unit, taken as an element or a view of an array, copied, and inside depth-2 "
+    "programs (c*sin(q)+d, sin(q+b) ...). Reductions: ufunc.reduce/.accumulate/.reduceat of + - * / max min hypot and sum, prod, "
+    "cumsum, cumprod, max, min (methods and np.*) run on operands of rank 1 and 2 (extents 2 and 3) with every legal axis argument; the "
+    "oracle is NumPy's own reduction of the bare SI magnitudes and, for the dimension, the number of elements each output combines."
 )
 BOUNDS = {
     "quick": "ops {+ - * / (operator, ufunc, in-place, out=), true_divide, maximum/minimum/fmax/fmin, hypot, remainder/mod/fmod/floor_divide/"
              "divmod (scalar payload), 6 comparisons, negative/absolute/fabs/positive/conjugate, sqrt/cbrt/square/reciprocal, power with "
              "the 13 rational exponents of E, add/multiply reduce/accumulate/outer and sum/prod/cumsum (methods and np.*), dot/matmul/"
-             "inner/vdot up to 2x2 @ 2, sin/cos/tan of angle units, np.clip, 10 depth-2 programs}; operand unit shapes {atomic, k/m-"
+             "inner/vdot up to 2x2 @ 2, sin/cos/tan of angle units (offset-free: symbolic, prefixed, radian/degree/arcmin, compound; WITH AN "
+             "OFFSET: atom xgo with symbolic nonzero scale and symbolic offset, lat, lon) x call forms {ufunc, out=ndarray, out=quantity} x "
+             "operand history {created from a string / with a Unit object, .to() from a symbolic offset-free angle / from degree, "
+             "convert_to_units in place, element of an array, view of an array, copy} x shapes (), (2,), (2,2) [quick: all forms for the "
+             "plain history, one function per history and unit], 5 depth-2 programs around them (c*sin(q)+d, c*tan(q), sin(q+b), cos(q-b), "
+             "sin(q)*cos(q)); REDUCTION FORMS x RANK x AXIS: {add, multiply, divide, maximum}.{reduce, accumulate, reduceat} and sum/prod/"
+             "np.prod/cumsum/np.cumprod/max on shapes (2,) [(3,) for reduceat, indices [0,1]] and (2,3) with axis omitted / 0 / 1 / -1 / "
+             "None / (0,) / (0,1) / (1,) where NumPy accepts the call, keepdims, a where= mask [T,F,T]; power with a concrete exponent "
+             "ARRAY [2,2] / [2,3] on a base of rank 0 and 1; np.clip, 10 depth-2 programs}; operand unit shapes {atomic, k/m-"
              "prefixed, ua*ub, ua/ub, ua**2 with symbolic scales; table pairs that cancel in products: km~m, m~cm, hr~min, km/hr~m/s, "
              "km/m, cm**2~1/m ... with concrete scales and symbolic values; PARTLY CANCELLING pairs (atoms of derived dimension xv "
              "velocity, xf force, xj energy with symbolic scales, and table units N, dyn, J, mJ, erg, W, Pa, mile, mph): 16 quotient pairs "
@@ -71,17 +89,27 @@ BOUNDS = {
                 "(2,2); +, -, sqrt swept over every dimension found in the registry at run time and *, / over every ordered pair of them "
                 "(except pairs whose product/quotient is dimensionless: cancellation with symbolic scales); every partly cancelling "
                 "pair x every form of divide/true_divide/multiply x shapes (), (2,)~(), ()~(2,), (2,)~(2,), selected (2,2), .outer of all of "
-                "them; additive/comparison/mod families and divmod over the 7 derived~base spellings",
+                "them; additive/comparison/mod families and divmod over the 7 derived~base spellings; trigonometry: every function x form x history x "
+                "{xgo, lat, lon} x shapes (), (2,) plus (2,2), and the offset-free units through every history; reduction forms: all ten "
+                "ufuncs {add subtract maximum minimum fmax fmin hypot multiply divide true_divide} x three methods x both ranks x every "
+                "legal axis argument on kxa (reduceat of the others than add/multiply: axis omitted/0/1), add/multiply/divide reduce and "
+                "accumulate of rank 2 also on km/m and xa/xs, twelve function forms; exponent arrays [2,2] [1/2,1/2] [2,3] [2] on "
+                "{kxa, km/m}",
 }
-OUTSIDE = ("IEEE rounding/overflow/nan (A1); integer and complex payloads (C17); units with an offset (C08); exp/log/hyperbolic/non-angle "
+OUTSIDE = ("IEEE rounding/overflow/nan (A1); integer and complex payloads (C17); ARITHMETIC on units with an offset (a point plus a point, "
+           "the negative or a multiple of a point, the order of two points: C08 decides the point/difference semantics for temperature; "
+           "only the trigonometric functions of offset angles, and a point shifted by an offset-free angle inside two programs, are "
+           "claimed here); SI-prefixed and compound units built on an offset unit (klat, lat*km/m: what the prefix or the product means "
+           "is C03's/C05's question - unyt drops the offset there); where= masks other than on reduce of add/multiply of rank <= 2; "
+           "max/min over all six elements only for the atomic unit (orderings); floor_divide/remainder reductions; exp/log/hyperbolic/non-angle "
            "trig, logaddexp, rounding family, frexp/modf/spacing, floor-division of different dimensions (as the property says); "
            "cancellation of same-dimension unit factors with SYMBOLIC scales (sympy cannot hold a z3 term: those pairs use table units, "
            "a partly cancelling pair has its COEFFICIENT pair from the table and on a dimension that no symbolic atom of the pair has - "
            "the left-over group is symbolic, the pairwise coefficient is one of 1e-3, 1e-6, 1/60, 100 ...; "
            "and floor_divide/divmod of two differently spelled symbolic-scale units assume the scales more than 1e-3 apart; the registry.modify variant uses atomic units only: stale prefixed/compound strings after modify are C12's); power with "
-           "non-scalar exponents; roots of negative values; matmul beyond 2x2; (2,2)@(2,2) with inexact table coefficients; the "
-           "ndarray.clip method and multiply.accumulate (both raise for every input on this tree; np.clip with mixed units raises - a "
-           "refusal is not a wrong number). A bare number is read as a dimensionless quantity: `1 + x%` coming back as 'dimensionless' "
+           "SYMBOLIC or quantity-typed exponent arrays (concrete exponent arrays of extent <= 2 are walked); roots of negative values; matmul beyond 2x2; (2,2)@(2,2) with inexact table coefficients; the "
+           "ndarray.clip method, multiply/divide.accumulate, cumprod and add/subtract/maximum/minimum/hypot.reduceat (all raise for every "
+           "input on this tree; np.clip with mixed units raises - a refusal is not a wrong number). A bare number is read as a dimensionless quantity: `1 + x%` coming back as 'dimensionless' "
            "is not counted against the left-most-unit clause. Registry identity of result units (C13).")
 ASSUMPTIONS = [
     "C04: np.divmod has no object-dtype loop; in symbolic mode the ufunc object handed to the real unyt_array.__array_ufunc__ is a "
@@ -90,6 +118,9 @@ ASSUMPTIONS = [
     "k <= a < k+1; the axioms are a conservative extension of the path condition); a counter-model is always one of the exact obligation",
     "C04: discontinuous operations are judged by their characterisation with an admissible band of 1e-8 relative around ties "
     "(quotient within the band of an integer may be floored either way; comparisons of SI magnitudes closer than 1e-8 relative may go either way)",
+    "C04: sin/cos/tan are uninterpreted functions (A6); 'the result is the function of the radian magnitude up to rounding' is stated on the "
+    "argument term the real code applies the function to (within 1e-6 relative to the addends scale*x and scale*offset of the oracle's "
+    "radian magnitude), not on the function values; plain replays compare the values (1e-6 relative + 1e-9)",
 ]
 
 # ------------------------------------------------------------------------------------------------ units of the harness
@@ -278,6 +309,48 @@ def phypot(a, b):
 
 def ptrig(name, v):
     return getattr(v, name)() if is_sym(v) else getattr(math, name)(v)
+
+
+def trig_ok(fn, g, S, terms=()):
+    """g: what the library returned for fn of an angle whose radian magnitude is S (oracle), terms: the addends the library may have
+    formed S from (x*s, o*s ...). sin/cos/tan are uninterpreted for the solver, so 'g is fn of the radian magnitude up to rounding'
+    is stated on the ARGUMENT: g must be the application of fn to a term within the 1e-6 band of S (a float product like
+    scale*offset is rounded once by the library and not at all by the oracle: two different rationals, on which an uninterpreted
+    function may take any two values). Plain runs compare the values."""
+    if is_sym(g) and is_sym(S):
+        import z3
+        w = ptrig(fn, S)
+        t = g.t
+        if z3.is_app(t) and t.num_args() == 1 and t.decl().eq(w.t.decl()):
+            return close(SymReal(t.arg(0)), S, extra=band(*terms) if terms else 0)
+        return close(g, w, extra=1e-9)
+    return close(g, ptrig(fn, S), extra=1e-9)
+
+
+def trig_rewrite(got, expected):
+    """the same for a result that CONTAINS applications of trigonometric functions (c*sin(q)+d): expected = {fn: (S, terms)}.
+    -> (every application of fn inside got has its argument within the band of S, got with each of them replaced by the oracle's
+    application fn(S)); the arithmetic around the applications is then compared as usual. Plain runs: (True, got)."""
+    if not is_sym(got):
+        return True, got
+    import z3
+    decls = {fn: ptrig(fn, S) for fn, (S, _) in expected.items() if is_sym(S)}
+    conds, subs, seen = [], [], set()
+
+    def walk(t):
+        if t.get_id() in seen or not z3.is_app(t):
+            return
+        seen.add(t.get_id())
+        for fn, w in decls.items():
+            if t.num_args() == 1 and t.decl().eq(w.t.decl()):
+                S, terms = expected[fn]
+                conds.append(close(SymReal(t.arg(0)), S, extra=band(*terms) if terms else 0))
+                subs.append((t, w.t))
+        for c in t.children():
+            walk(c)
+    walk(got.t)
+    new = z3.substitute(got.t, *subs) if subs else got.t
+    return And(*conds) if conds else True, SymReal(new)
 
 
 def bval(b):
@@ -806,6 +879,39 @@ def make_power_case(e, form, spec, sh=(), tag=""):
     return Case(f"C04/power/{form}/{spec.text}^{et}/{shape_tag(sh)}{tag}", h, budget_s=600, weight=3)
 
 
+def make_power_array_case(exps, form, spec, sh, tag=""):
+    """an ARRAY of exponents (concrete numbers; the base value and scale are symbolic). A uniform array [e, e] has the answer of the
+    scalar exponent e element by element; a non-uniform one on a base with a dimension has no single unit and must be refused. A
+    refusal (UnitOperationError) is acceptable in both, a unit that is not units**e is not."""
+    exps = [Fraction(e) for e in exps]
+    earr = np.array([float(e) for e in exps])
+    uniform = len(set(exps)) == 1
+
+    def h(ctx):
+        reg = ctx.registry([])
+        kw = dict(pos=True) if any(e.denominator != 1 for e in exps) else (dict(nonzero=True) if any(e < 0 for e in exps) else {})
+        A, x, s0, d0 = spec.quantity(ctx, reg, "x", sh, **kw)
+        ua = A.units
+        res = call(operator.pow, A, earr) if form == "op" else call(np.power, A, earr)
+        if res[0] == "raise":
+            ctx.require("refuses with UnitOperationError", isinstance(res[1], ctx.mods["unyt"].exceptions.UnitOperationError))
+            ctx.observe("raised", type(res[1]).__name__)
+            return
+        r = res[1]
+        xs = bcast(elements(x), sh, np.broadcast_shapes(sh, earr.shape))
+        es = bcast(exps, earr.shape, np.broadcast_shapes(sh, earr.shape))
+        ctx.require("one unit can label the result (else the call must be refused)", uniform or same_dims(d0, d0 / d0))
+        got = si_of(r)
+        ctx.require("si", And(len(got) == len(xs), *[close(g, ppow(xv * s0, e)) for g, xv, e in zip(got, xs, es)]))
+        if uniform:
+            ctx.require("dims", same_dims(dims_of(ctx, r), d0 ** _sym_exp(exps[0])))
+        ctx.require("result unit agrees with its registry", wellformed(ctx, r, reg))
+        ctx.require("operand untouched", And(*[exact_eq(p, q) for p, q in zip(payload(A), elements(x))], A.units is ua))
+        ctx.observe("result", payload(r))
+    et = ",".join(f"{e.numerator}" if e.denominator == 1 else f"{e.numerator}_{e.denominator}" for e in exps)
+    return Case(f"C04/power/{form}/{spec.text}^[{et}]/{shape_tag(sh)}{tag}", h, budget_s=600, weight=2)
+
+
 # ------------------------------------------------------------------------------------------------ reductions, outer, dot
 
 def make_reduce_case(kind, spec, sh, axis=None, tag=""):
@@ -848,6 +954,167 @@ def make_reduce_case(kind, spec, sh, axis=None, tag=""):
         ctx.observe("result", payload(r))
     ax = "" if axis is None else f"/axis{axis}"
     return Case(f"C04/{kind}/{spec.text}/{shape_tag(sh)}{ax}{tag}", h, budget_s=600)
+
+
+# ---- operand rank x axis argument of every reduction form -------------------------------------------------------------------
+# ufunc.reduce / .accumulate / .reduceat and the ndarray / np.* reduction functions, operand of rank 1 and 2 (extents 2 and 3, so
+# that 'along axis 0', 'along axis 1' and 'over all elements' combine 2, 3 and 6 elements: three different unit exponents for a
+# product), axis argument omitted / 0 / 1 / -1 / None / tuple, keepdims, a where= mask. The oracle is NumPy's own reduction of the
+# bare SI magnitudes (the same call on x*s without any unit) for the values and, for the dimension, the NUMBER OF ELEMENTS combined
+# into each output element (the same call on an array of ones): d**n for a product, d**(2-n) for a repeated quotient, d otherwise.
+# A refusal is acceptable where one unit cannot label the outputs (cumulative products, reduceat); a wrong unit never is.
+OMIT = "omitted"
+RED_UFUNCS = {"add": "keep", "subtract": "keep", "maximum": "keep", "minimum": "keep", "fmax": "keep", "fmin": "keep", "hypot": "keep",
+              "multiply": "mul", "divide": "div", "true_divide": "div"}
+# function forms: name -> (the equivalent ufunc form that counts the combined elements, unit rule, called as method?)
+RED_FUNCS = {"sum": ("sum", "keep"), "prod": ("sum", "mul"), "cumsum": ("cumsum", "keep"), "cumprod": ("cumsum", "mul"),
+             "max": ("sum", "keep"), "min": ("sum", "keep")}
+REDUCEAT_IDX = [0, 1]
+
+
+def axis_tag(ax):
+    return "axis:" + (ax if isinstance(ax, str) else str(ax).replace(" ", ""))
+
+
+def _red_call(kind, arr, ax, keepdims=False, where=None, bare=False):
+    """the reduction `kind` applied to arr (quantity, bare SI array or array of ones) with the given axis argument"""
+    kw = {} if ax == OMIT else dict(axis=ax)
+    if keepdims:
+        kw["keepdims"] = True
+    if where is not None:
+        # object-dtype payloads have no identity element of their own: the neutral element is passed explicitly in every mode
+        kw["where"] = np.array(where)
+        kw["initial"] = 1.0 if kind.startswith(("multiply", "prod", "np.prod")) else 0.0
+    if "." in kind and not kind.startswith("np."):
+        ufn, meth = kind.split(".")
+        f = getattr(getattr(np, ufn), meth)
+        return f(arr, REDUCEAT_IDX, **kw) if meth == "reduceat" else f(arr, **kw)
+    if kind.startswith("np."):
+        return getattr(np, kind[3:])(arr, **kw)
+    return getattr(arr, kind)(**kw)
+
+
+def red_counts(kind, sh, ax, keepdims=False, where=None):
+    """how many input elements each output element combines (flat list), or None if NumPy itself refuses the call"""
+    ones = np.ones(sh)
+    if "." in kind and not kind.startswith("np."):
+        ckind = "add." + kind.split(".")[1]
+    else:
+        ckind = RED_FUNCS[kind[3:] if kind.startswith("np.") else kind][0]
+    try:
+        _red_call(kind, np.arange(1.0, 1.0 + ones.size).reshape(sh), ax, keepdims, where)        # is the call legal at all?
+        c = _red_call(ckind, ones, ax, keepdims, where)
+    except Exception:  # noqa: BLE001 - NumPy's refusal of the bare call: not a case
+        return None
+    return [int(round(v)) for v in np.asarray(c).ravel()]
+
+
+def red_rule(kind):
+    if "." in kind and not kind.startswith("np."):
+        return RED_UFUNCS[kind.split(".")[0]]
+    return RED_FUNCS[kind[3:] if kind.startswith("np.") else kind][1]
+
+
+def make_reduce_axis_case(kind, spec, sh, ax, keepdims=False, where=None, tag=""):
+    rule = red_rule(kind)
+    counts = red_counts(kind, sh, ax, keepdims, where)
+    assert counts is not None, (kind, sh, ax)
+    segmented = kind.endswith((".accumulate", ".reduceat", "cumsum", "cumprod"))
+
+    def h(ctx):
+        reg = ctx.registry([])
+        A, x, s0, d0 = spec.quantity(ctx, reg, "x", sh, **(dict(nonzero=True) if rule == "div" else {}))
+        ua = A.units
+        X = si_array(x, s0)
+        res = call(_red_call, kind, A, ax, keepdims, where)
+        if res[0] == "raise":
+            # an exception is not a silently wrong number; allowed where one unit cannot label the outputs (they combine different
+            # numbers of elements: cumulative products/quotients, reduceat) and for reduceat altogether (refused on this tree: the
+            # index list is read as a second operand); every other form has an answer and must give it
+            UE = ctx.mods["unyt"].exceptions
+            ok = (segmented and rule != "keep") or kind.endswith(".reduceat")
+            ctx.require("raises only where no single unit can label the result", ok and isinstance(res[1], (TypeError, UE.UnytError, UE.UnitOperationError)))
+            ctx.observe("raised", type(res[1]).__name__)
+            return
+        r = res[1]
+        want = _red_call(kind, X, ax, keepdims, where)
+        got, exp = si_of(r), elements(want)
+        ctx.require("shape", tuple(np.shape(r)) == tuple(np.shape(want)))
+        ctx.require("si", And(len(got) == len(exp), *[close(g, w, extra=0 if rule != "keep" else band(*elements(X))) for g, w in zip(got, exp)]))
+        E = {"keep": lambda n: 1, "mul": lambda n: n, "div": lambda n: 2 - n}[rule]
+        exps = sorted({E(n) for n in counts})
+        ctx.require("one unit can label the result (else the call must be refused)", len(exps) == 1)
+        if len(exps) == 1:
+            ctx.require("dims", same_dims(dims_of(ctx, r), d0 ** exps[0]))
+        if rule == "keep":
+            ctx.require("unit is the operand's", hasattr(r, "units") and unit_same(r.units, ua))
+        ctx.require("result unit agrees with its registry", wellformed(ctx, r, reg))
+        ctx.require("operand untouched", And(*[exact_eq(p, q) for p, q in zip(payload(A), elements(x))], A.units is ua))
+        ctx.observe("result", payload(r))
+    extra = ("/keepdims" if keepdims else "") + ("/where" if where is not None else "")
+    return Case(f"C04/{kind}/{spec.text}/{shape_tag(sh)}/{axis_tag(ax)}{extra}{tag}", h, budget_s=600,
+                weight=2 if kind.split(".")[0] in ("maximum", "minimum", "fmax", "fmin", "max", "min", "np") else 1)
+
+
+def reduce_axis_cases(tier):
+    quick = tier == "quick"
+    out = []
+    AX1 = [OMIT, 0, -1, None, (0,)]
+    AX2 = [OMIT, 0, 1, -1, None, (0, 1), (1,)]
+    ufs = ["add", "multiply", "divide", "maximum"] if quick else list(RED_UFUNCS)
+    specs = ["kxa"] if quick else ["kxa", "km/m", "xa/xs"]
+    for ufn in ufs:
+        for meth in ("reduce", "accumulate", "reduceat"):
+            kind = f"{ufn}.{meth}"
+            for sp in specs:
+                if sp != "kxa" and (meth == "reduceat" or ufn not in ("add", "multiply", "divide")):
+                    continue                           # the other unit shapes: on one ufunc of each unit rule, reduce and accumulate
+                for sh, axes in (((3,) if meth == "reduceat" else (2,), AX1), ((2, 3), AX2)):
+                    if sp != "kxa" and len(sh) == 1:
+                        continue                       # rank 1 of the other unit shapes: make_reduce_case
+                    if meth == "reduceat" and ufn not in ("add", "multiply", "divide") and len(sh) == 1:
+                        continue
+                    if quick and ufn == "maximum" and (meth == "reduceat" or len(sh) == 1):
+                        continue
+                    for ax in axes:
+                        if quick and meth != "reduce" and ax in ((0,), (1,), -1) and ufn != "multiply":
+                            continue
+                        if quick and meth == "reduceat" and (sh, ax) not in (((3,), OMIT), ((2, 3), 1), ((2, 3), OMIT)):
+                            continue                   # reduceat hits a known finding: few cases (every counterexample is replayed)
+                        if meth == "reduceat" and ufn not in ("add", "multiply") and ax in ((0,), (1,), -1, None):
+                            continue
+                        if red_counts(kind, sh, ax) is None:
+                            continue
+                        if RED_UFUNCS[ufn] == "keep" and ufn not in ("add", "subtract") and len(sh) == 2 and ax in (None, (0, 1)) and meth == "reduce":
+                            if quick or sp != "kxa":
+                                continue               # max of 6 symbolic elements: 6!-ish orderings
+                        out.append(make_reduce_axis_case(kind, U_(sp), sh, ax))
+        for sp in specs[:1]:
+            for ax in ((1,) if quick else (OMIT, 1, None)):
+                if red_counts(f"{ufn}.reduce", (2, 3), ax, keepdims=True) is not None and not (RED_UFUNCS[ufn] == "keep" and ufn not in ("add", "subtract") and ax is None):
+                    out.append(make_reduce_axis_case(f"{ufn}.reduce", U_(sp), (2, 3), ax, keepdims=True))
+    # a where= mask changes how many elements are combined
+    for ufn in ("add", "multiply"):              # divide has no identity: NumPy refuses a mask without initial=
+        out.append(make_reduce_axis_case(f"{ufn}.reduce", U_("kxa"), (3,), OMIT, where=[True, False, True]))
+        if not quick:
+            out.append(make_reduce_axis_case(f"{ufn}.reduce", U_("kxa"), (2, 3), 1, where=[True, False, True]))
+    # function forms
+    fkinds = ["sum", "prod", "np.prod", "cumsum", "np.cumprod", "max"] if quick else \
+        ["sum", "prod", "cumsum", "cumprod", "max", "min", "np.sum", "np.prod", "np.cumsum", "np.cumprod", "np.max", "np.min"]
+    for k in fkinds:
+        base = k[3:] if k.startswith("np.") else k
+        for sp in specs[:1] if quick else specs[:2]:
+            for ax in AX2:
+                if quick and ax in ((1,), -1):
+                    continue
+                if red_counts(k, (2, 3), ax) is None:
+                    continue
+                if base in ("max", "min") and ax in (OMIT, None, (0, 1)) and (quick or sp != "kxa"):
+                    continue
+                out.append(make_reduce_axis_case(k, U_(sp), (2, 3), ax))
+            if base in ("sum", "prod") and not quick:
+                out.append(make_reduce_axis_case(k, U_(sp), (2, 3), 1, keepdims=True))
+    return out
 
 
 def make_outer_case(ufn, spec0, spec1, sh0, sh1, tag=""):
@@ -907,26 +1174,154 @@ def make_dot_case(form, spec0, spec1, sh0, sh1, tag=""):
 
 # ------------------------------------------------------------------------------------------------ trigonometry of angles, clip
 
-def make_trig_case(fn, form, spec, sh=(), tag=""):
+# angle units WITH AN OFFSET (coordinates): the number x written in such a unit is the angle scale*(x - offset) radian. The harness
+# atoms carry a symbolic scale of EITHER sign and a symbolic offset of either sign; the two such units of the default table are
+# written down here from their definition, independently of unyt's table: a latitude of x is the polar angle (90 - x) degree, a
+# longitude of x is the angle (x + 180) degree.
+OFFSET_TABLE = {"lat": (-math.pi / 180.0, 90.0), "lon": (math.pi / 180.0, -180.0)}
+OFFSET_ATOMS = ("xgo", "xho")
+NAMES += list(OFFSET_ATOMS)
+
+
+class OffSpec:
+    """an angle unit with an offset: harness atom (symbolic nonzero scale, symbolic offset) or lat / lon"""
+    bare = False
+
+    def __init__(self, name):
+        self.name = self.text = name
+
+    def unit(self, ctx, reg):
+        """registers the atom; -> (scale, offset) of the oracle: SI reading of the number x is scale*(x - offset)"""
+        if self.name in OFFSET_TABLE:
+            return OFFSET_TABLE[self.name]
+        s = ctx.real(self.name + "_s", nonzero=True)
+        o = ctx.real(self.name + "_o")
+        if self.name not in reg.lut:
+            ctx.add_row(reg, self.name, ctx.mods["unyt"].dimensions.angle, s, o)
+        return s, o
+
+
+# how the operand of the trigonometric function came to be written in its unit (the value axis stays symbolic in every one):
+#   new      created in the unit from a unit string          unitobj  created with a Unit object
+#   to       written in the offset-free angle atom xh (symbolic scale) and re-expressed with .to(unit): the property's
+#            're-expressing an operand changes the result only by re-expression' in its literal form
+#   todeg    the same from the table unit degree             convert  re-expressed in place with convert_to_units
+#   item     element [1] of a 2-array in the unit            slice    the view [1:] of a 2-array        copy   .copy() of it
+TRIG_HOWS = ["new", "unitobj", "to", "todeg", "convert", "item", "slice", "copy"]
+TRIG_FORMS = ["ufunc", "out", "outq"]
+
+
+def trig_operand(ctx, reg, spec, sh, how):
+    """-> (operand, its payload symbols as a flat list, SI magnitudes (radian) of its elements as a flat list, per element the
+    addends such a magnitude is formed from: the rounding band is relative to them)"""
+    if isinstance(spec, OffSpec):
+        s0, o0 = spec.unit(ctx, reg)
+        uname = spec.name
+    else:
+        uname, s0, _ = spec.build(ctx, reg)
+        o0 = 0.0
+    if how in ("to", "todeg", "convert"):
+        src = U_("xh") if how != "todeg" else U_("degree")
+        B, y, sb, _ = src.quantity(ctx, reg, "x", sh)
+        ys = list(elements(y))                  # before the conversion: convert_to_units rewrites the buffer in place
+        if how == "convert":
+            B.convert_to_units(uname)
+            A = B
+        else:
+            A = B.to(uname)
+        return A, ys, [yv * sb for yv in ys], [(yv * sb, s0 * o0) for yv in ys]
+    if how in ("item", "slice"):
+        big = ctx.reals("x", (2,) + tuple(sh))
+        W = ctx.quantity(big, uname, reg)
+        A = W[1] if how == "item" else W[1:]
+        xs = elements(big[1]) if how == "item" else elements(big[1:])
+        return A, xs, [s0 * (xv - o0) for xv in xs], [(s0 * xv, s0 * o0) for xv in xs]
+    x = ctx.reals("x", sh)
+    if how == "unitobj":
+        A = ctx.quantity(x, ctx.mods["unyt"].Unit(uname, registry=reg), reg)
+    else:
+        A = ctx.quantity(x, uname, reg)
+    if how == "copy":
+        A = A.copy()
+    return A, elements(x), [s0 * (xv - o0) for xv in elements(x)], [(s0 * xv, s0 * o0) for xv in elements(x)]
+
+
+def make_trig_case(fn, form, spec, sh=(), tag="", how="new"):
     def h(ctx):
         reg = ctx.registry([])
-        A, x, s0, d0 = spec.quantity(ctx, reg, "x", sh)
+        A, xs, S, T = trig_operand(ctx, reg, spec, sh, how)
         ua = A.units
+        before = payload(A)
+        rsh = np.shape(A)
         o = None
         if form == "ufunc":
             r = getattr(np, fn)(A)
+        elif form == "out":
+            o = ctx.const_array(np.zeros(rsh))
+            r = getattr(np, fn)(A, out=o)
         else:
-            o = ctx.const_array(np.zeros(sh))
+            o = ctx.quantity(ctx.const_array(np.zeros(rsh)), "dimensionless", reg)
             r = getattr(np, fn)(A, out=o)
         got = elements(r)
-        exp = [ptrig(fn, xv * s0) for xv in elements(x)]
-        ctx.require("value is the function of the radian magnitude", And(len(got) == len(exp), *[close(g, w, extra=1e-9) for g, w in zip(got, exp)]))
+        ctx.require("value is the function of the radian magnitude", And(len(got) == len(S), *[trig_ok(fn, g, v, t) for g, v, t in zip(got, S, T)]))
         ctx.require("result is dimensionless", (not hasattr(r, "units")) or r.units.is_dimensionless)
         if hasattr(r, "units"):
             ctx.require("result unit scale is 1", exact_eq(r.units.base_value, 1.0))
-        ctx.require("operand untouched", And(*[exact_eq(p, q) for p, q in zip(payload(A), elements(x))], A.units is ua))
+        if o is not None:
+            ctx.require("out= holds the result", And(len(payload(o)) == len(got), *[exact_eq(p, q) for p, q in zip(payload(o), got)]))
+            if hasattr(o, "units"):
+                ctx.require("out= unit is a pure number", And(o.units.is_dimensionless, exact_eq(o.units.base_value, 1.0)))
+        ctx.require("operand untouched", And(*[exact_eq(p, q) for p, q in zip(payload(A), before)], A.units is ua))
+        if how in ("new", "unitobj", "copy", "item", "slice"):
+            ctx.require("operand holds the numbers it was given", And(*[exact_eq(p, q) for p, q in zip(before, xs)]))
         ctx.observe("result", payload(r))
-    return Case(f"C04/{fn}/{form}/{spec.text}/{shape_tag(sh)}{tag}", h, budget_s=600)
+    hw = "" if how == "new" else f"/{how}"
+    return Case(f"C04/{fn}/{form}/{spec.text}/{shape_tag(sh)}{hw}{tag}", h, budget_s=600)
+
+
+# depth-2 programs around a trigonometric function of an angle unit with an offset: q is the angle (OffSpec), b an offset-free
+# angle in another unit (a rotation applied to the coordinate: point + difference), c and d lengths
+TRIG_PROGRAMS = {
+    "c*sin(q)+d": lambda np_, q, b, c, d: c * np_.sin(q) + d,
+    "c*tan(q)": lambda np_, q, b, c, d: c * np_.tan(q),
+    "sin(q+b)": lambda np_, q, b, c, d: np_.sin(q + b),
+    "cos(q-b)": lambda np_, q, b, c, d: np_.cos(q - b),
+    "sin(q)*cos(q)": lambda np_, q, b, c, d: np_.sin(q) * np_.cos(q),
+}
+
+
+def make_trig_program_case(name, spec, bspec="xh", tag=""):
+    prog = TRIG_PROGRAMS[name]
+
+    def h(ctx):
+        reg = ctx.registry([])
+        D = ctx.mods["unyt"].dimensions
+        q, xs, S, T = trig_operand(ctx, reg, spec, (), "new")
+        Bq, y, sb, _ = U_(bspec).quantity(ctx, reg, "y", ())
+        C, cv, sc, _ = U_("xa").quantity(ctx, reg, "c", ())
+        Dq, dv, sd, _ = U_("kxb").quantity(ctx, reg, "d", ())
+        Q, Bs, Cs, Ds = S[0], elements(y)[0] * sb, elements(cv)[0] * sc, elements(dv)[0] * sd
+        r = prog(np, q, Bq, C, Dq)
+        got = si_of(r)[0]
+        T0 = T[0]
+        if name == "c*sin(q)+d":
+            want, dims, bnd, args = Cs * ptrig("sin", Q) + Ds, D.length, band(Cs * ptrig("sin", Q), Ds), {"sin": (Q, T0)}
+        elif name == "c*tan(q)":
+            want, dims, bnd, args = Cs * ptrig("tan", Q), D.length, 0, {"tan": (Q, T0)}
+        elif name == "sin(q+b)":
+            want, dims, bnd, args = ptrig("sin", Q + Bs), D.dimensionless, 1e-9, {"sin": (Q + Bs, T0 + (Bs,))}
+        elif name == "cos(q-b)":
+            want, dims, bnd, args = ptrig("cos", Q - Bs), D.dimensionless, 1e-9, {"cos": (Q - Bs, T0 + (Bs,))}
+        else:
+            want, dims, bnd, args = ptrig("sin", Q) * ptrig("cos", Q), D.dimensionless, 1e-9, {"sin": (Q, T0), "cos": (Q, T0)}
+        ok, got = trig_rewrite(got, args)
+        # one obligation: every trigonometric function is applied to the radian magnitude AND the arithmetic around it is right
+        ctx.require("si", And(ok, close(got, want, extra=bnd)))
+        ctx.require("dims", same_dims(dims_of(ctx, r), dims))
+        if hasattr(r, "units"):
+            ctx.require("result unit carries no offset", exact_eq(r.units.base_offset, 0.0))
+        ctx.observe("result", payload(r))
+    return Case(f"C04/program/{name}/{spec.text}~{bspec}{tag}", h, budget_s=600, weight=3)
 
 
 def make_clip_case(form, spec0, spec1, spec2, sh=(2,), tag="", same_object=False):
@@ -1203,6 +1598,15 @@ def cases(tier, mods):
             add(make_power_case(e, "iop", U_("xa")))
             add(make_power_case(e, "out", U_("kxa")))
         add(make_power_case(e, "op", U_("kxa"), (2,)))
+    # array exponents (concrete), base of rank 0 and 1
+    # (most of them hit a known finding - every counterexample is replayed serially: the list is kept short)
+    for exps in ([[2, 2], [2, 3]] if quick else [[2, 2], [F(1, 2), F(1, 2)], [2, 3], [2]]):
+        for f in ("op", "ufunc"):
+            for sp in (["kxa"] if quick else ["kxa", "km/m"]):
+                for sh in ((), (2,)):
+                    add(make_power_array_case(exps, f, U_(sp), sh))
+    if quick:
+        add(make_power_array_case([2, 3], "op", U_("km/m"), (2,)))
     # reductions
     rkinds = ["add.reduce", "add.accumulate", "multiply.reduce", "multiply.accumulate", "sum", "prod", "cumsum", "np.sum", "np.prod", "np.cumsum"]
     rspecs = ["xa", "kxa", "xa/xs", "km/m"] if quick else UNARY_SPECS
@@ -1213,6 +1617,7 @@ def cases(tier, mods):
             if ax is None and "accumulate" in k:
                 continue
             add(make_reduce_case(k, U_("kxa"), (2, 2), ax))
+    out.extend(reduce_axis_cases(tier))
     for p in (["xa~xb", "km~m", "bare~xp"] if quick else [q for q in ADD_PAIRS if q != "xp~bare"] + ADD_PAIRS_TABLE):
         add(make_outer_case("add", *pair(p), (2,), (2,)))
     for p in (["xa~xm", "km~1/m", "xa~bare"] if quick else MUL_PAIRS + MUL_ONLY_PAIRS + MUL_PAIRS_TABLE):
@@ -1241,6 +1646,44 @@ def cases(tier, mods):
             add(make_trig_case(fn, "ufunc", U_(sp)))
         add(make_trig_case(fn, "out", U_("xg"), (2,)))
         add(make_trig_case(fn, "ufunc", U_("degree"), (2,)))
+    # ... of angle units WITH AN OFFSET (symbolic scale of either sign, symbolic offset; lat and lon of the default table), walked over
+    # call form x how the operand came to be written in the unit x payload shape; the offset-free units go through the same
+    # operand histories
+    fns = ("sin", "cos", "tan")
+    off = [OffSpec(n) for n in ("xgo", "lat", "lon")]
+    if quick:
+        for i, fn in enumerate(fns):
+            for sp in off:
+                for f in TRIG_FORMS:
+                    add(make_trig_case(fn, f, sp))
+            for j, how in enumerate(TRIG_HOWS[1:]):
+                for k, sp in enumerate(off):
+                    if (i + j + k) % 3 == 0:
+                        add(make_trig_case(fn, "ufunc", sp, how=how))
+                if (i + j) % 3 == 1:
+                    add(make_trig_case(fn, TRIG_FORMS[1 + j % 2], U_("xg"), how=how))
+            add(make_trig_case(fn, "ufunc", off[0], (2,)))
+            add(make_trig_case(fn, "out", off[1 + i % 2], (2,)))
+            add(make_trig_case(fn, "outq", off[0], (2, 2)))
+    else:
+        for fn in fns:
+            for sp in off:
+                for f in TRIG_FORMS:
+                    for how in TRIG_HOWS:
+                        for sh in ((), (2,)):
+                            add(make_trig_case(fn, f, sp, sh, how=how))
+                    add(make_trig_case(fn, f, sp, (2, 2)))
+            for sp in (U_("xg"), U_("kxg"), U_("degree"), U_("xg*km/m")):
+                for how in TRIG_HOWS[1:]:
+                    if how == "todeg" and sp.text == "degree":
+                        continue
+                    for f in TRIG_FORMS:
+                        add(make_trig_case(fn, f, sp, how=how))
+    for n in TRIG_PROGRAMS:
+        for sp in (off if not quick else off[:2]):
+            add(make_trig_program_case(n, sp))
+        if not quick:
+            add(make_trig_program_case(n, off[0], "degree"))
     # clip
     for f in ("np.clip", "np.clip.out"):
         add(make_clip_case(f, U_("xa"), U_("xa"), U_("xa"), same_object=True, tag="/same"))
